@@ -50,6 +50,14 @@ Grid2D, Grid3D) are emitted; every other class must produce IDENTICAL arrays (el
   an assignment whose right-hand side is not understood binds an UNKNOWN value (only if it cannot mutate a tracked
   array); whatever is computed from it is unknown; an unknown array that reaches the mesh object is `untranslated`
   (this is how `corners` / `edges`, which tbc.py derives, pass through).
+  INERT statements (tinert.py: print / warnings.warn / logging calls and asserts on PURE expressions, `pass`,
+  `if <pure>:` over such statements, validation guards `if <pure>: raise E(...)`, assignments to locals that only such
+  statements read) are first executed like any other statement (so a `warn`, a guard whose test the calling form decides,
+  `if a > b: raise` on symbolic integers recorded in `_nmin`, ... behave as before); when the interpreter does NOT
+  understand an inert statement (or does not decide its test) it is skipped and `_nmin` is restored (e.g.
+  `if not np.all(np.diff(f) > 0): raise ValueError(...)`, `print(f"{Nx=}")`).  Extra parameters with a default are
+  bound by the interpreter's own argument binding.  The test is purely syntactic (closed list of
+  side-effect-free functions, no method call, no store), so a skipped statement cannot write.
 ANYTHING else ⇒ untranslated (no definition, name in `untranslated`, the theorems of GenEqMesh.lean stop compiling).
 Trusted (not derived): numpy semantics of the constructs above (C order of `reshape`, `np.arange(a, b)` = a..b-1 for
 integers, `np.hstack` = concatenation), Python's argument binding.
@@ -59,6 +67,7 @@ from fractions import Fraction
 
 sys.path.insert(0, os.path.dirname(os.path.abspath(__file__)))
 import tnum                                                            # noqa: E402
+import tinert                                                          # noqa: E402
 from tnum import Bad, Poly, ONE, AXES, KIND, MeshInfo, write_if_changed, rnum, strip_outer   # noqa: E402
 
 ZERO = Poly()
@@ -245,8 +254,8 @@ def poly_axes(poly):
 class Source:
     def __init__(self, repo):
         src = os.path.join(repo, "src", "pyfvtool")
-        self.tree = ast.parse(open(os.path.join(src, "mesh.py")).read())
-        self.util = ast.parse(open(os.path.join(src, "utilities.py")).read())
+        self.tree = tinert.register(ast.parse(open(os.path.join(src, "mesh.py")).read()))
+        self.util = tinert.register(ast.parse(open(os.path.join(src, "utilities.py")).read()))
         self.info = MeshInfo(self.tree)
         self.glob = {}
         for st in self.tree.body:
@@ -394,6 +403,7 @@ class Run:
         if kw:
             raise Raised("TypeError")
         fr = Frame(env, defcls, selfobj, fn.name)
+        fr.inert = tinert.analysis(fn)
         self.stack.append(fr)
         try:
             self.block(fn.body)
@@ -419,7 +429,23 @@ class Run:
         for st in body:
             self.stmt(st)
 
+    quiet = False           # True in the arity probes (unknown arguments): what is skipped there is not reported
+
     def stmt(self, st):
+        inert = getattr(self.fr, "inert", None) or tinert.analysis(None)
+        if not inert.is_inert(st):
+            return self.stmt0(st, inert)
+        # an inert statement (tinert.py) is first executed like any other (a `warn`, a decided guard, ... behave as
+        # before); when it is not understood it is skipped: it has no effect on the object
+        snap = (dict(self.mins), len(self.reasons))
+        try:
+            return self.stmt0(st, inert)
+        except Bad:
+            inert.skip_guard(st, note=not self.quiet)
+            self.mins = snap[0]
+            del self.reasons[snap[1]:]
+
+    def stmt0(self, st, inert):
         st = tnum.plain_assign(st)
         if isinstance(st, ast.Expr):
             if isinstance(st.value, ast.Constant):
@@ -1271,6 +1297,7 @@ def arities(src):
         ok = []
         for k in range(0, 9):
             run = Run(src)
+            run.quiet = True
             try:
                 run.call(g[1], [TupV([Unknown("arg")] * k), Poly.const(dim)], {})
                 ok.append(k)
@@ -1290,6 +1317,7 @@ def ctor_arities(src, cls, name):
     ok = []
     for k in range(0, 9):
         run = Run(src)
+        run.quiet = True
         try:
             run.call(fn, [Unknown("arg")] * k, {}, defcls=owner, selfobj=Obj(cls))
             ok.append(k)
@@ -1322,6 +1350,7 @@ def lean_str_list(xs):
 
 def generate(repo):
     status, out = {}, [HEADER]
+    tinert.set_repo(repo)
     try:
         src = Source(repo)
     except Bad as ex:
@@ -1547,6 +1576,7 @@ def main():
     repo = os.environ.get("VERIF_REPO", "/repo")
     dst = sys.argv[1]
     text, status = generate(repo)
+    status = tinert.annotate(status)
     write_if_changed(dst, text)
     base = os.path.splitext(os.path.basename(dst))[0].lower()
     write_if_changed(os.path.join(os.path.dirname(os.path.abspath(dst)), f"{base}_status.json"),
